@@ -321,6 +321,17 @@ def _w_c02(args):
             for k in range(lo, hi):
                 rnd = random.Random(seed * 4241 + k)
                 s = programs.build_random(seed * 4241 + k, depth=2 if k % 3 else 3)
+                if k % 4 == 0:
+                    # a wide-valued key that is decided next to an undecided one (values outside small ranges)
+                    lo = rnd.choice([300, -70000, 1000, 257, -18, 2 ** 40])
+                    extra = s.int_var(lo, lo + 2)
+                    free = s.bool_var()
+                    V = s.verif_vocab
+                    V.ints.append(extra)
+                    V.bools.append(free)
+                    t = ("cmp", "eq", ("ivar", len(V.ints) - 1), ("ilit", lo + 1))
+                    s.verif_terms.append(t)
+                    s.ensure(programs.build(t, V))
                 nv = len(s.variables)
                 subsets = list(itertools.product([False, True], repeat=nv))
                 if len(subsets) > 8:
